@@ -750,6 +750,68 @@ fn c02_tick_step_online___V__() {
     core::mem::forget(c);
 }
 
+// tick()'s dispatch with its two callees replaced by recording stand-ins (resend() with a real 2 KiB
+// chunk is what makes c02_tick_step_online need > 16 GB; what the callees do is decided by
+// c02_resend_rearms / c02_tick_step_<handshake state> / c04_resend_packing)
+pub static mut VERIF_RESEND_CALLS___V__: u32 = 0;
+pub static mut VERIF_TICK_ACTION_CALLS___V__: u32 = 0;
+impl Connection {
+    fn verif_resend_record___V__<CB: Callback>(&mut self, _cb: &mut CB) -> Result<(), CB::Error> {
+        unsafe {
+            VERIF_RESEND_CALLS___V__ += 1;
+        }
+        Ok(())
+    }
+    fn verif_tick_action_record___V__<CB: Callback>(&mut self, _cb: &mut CB) -> Result<(), CB::Error> {
+        unsafe {
+            VERIF_TICK_ACTION_CALLS___V__ += 1;
+        }
+        Ok(())
+    }
+}
+
+#[kani::proof]
+#[kani::unwind(6)]
+#[kani::stub(Connection::resend, Connection::verif_resend_record___V__)]
+#[kani::stub(Connection::tick_action, Connection::verif_tick_action_record___V__)]
+fn c02_tick_dispatch_online___V__() {
+    // Online, one unacknowledged chunk, symbolic clock and both deadlines: a due retransmission runs
+    // resend() and leaves the send timer as it was (still pending, so that the rebuilt packet goes out
+    // at that deadline); otherwise a due send deadline is consumed and tick_action() runs (it re-arms
+    // the timer); otherwise nothing happens
+    let now: u64 = kani::any();
+    let send_dl: u64 = kani::any::<u64>() >> 1;
+    let chunk_dl: u64 = kani::any::<u64>() >> 1;
+    let mut c = v_connection(kani::any(), 1);
+    c.send = Timeout::active(Timestamp::from_usecs_since_epoch(send_dl));
+    {
+        let online = c.state.assert_online();
+        online.resend_queue = VecDeque::with_capacity(2);
+        let mut rc = resend_chunk___V__(1, 0x55);
+        rc.next_send = Timeout::active(Timestamp::from_usecs_since_epoch(chunk_dl));
+        online.resend_queue.push_front(rc);
+    }
+    let mut cb = VCb::new(now);
+    let r = c.tick(&mut cb);
+    assert!(r.is_ok());
+    let (resends, actions) = unsafe { (VERIF_RESEND_CALLS___V__, VERIF_TICK_ACTION_CALLS___V__) };
+    if chunk_dl <= now {
+        assert!(resends == 1 && actions == 0);
+        assert!(c.send == Timeout::active(Timestamp::from_usecs_since_epoch(send_dl)));
+        kani::cover!(send_dl <= now, "both deadlines due on the same tick");
+    } else if send_dl <= now {
+        assert!(resends == 0 && actions == 1);
+        assert!(!c.send.is_active());
+        kani::cover!(true, "send deadline due");
+    } else {
+        assert!(resends == 0 && actions == 0);
+        assert!(c.send == Timeout::active(Timestamp::from_usecs_since_epoch(send_dl)));
+        kani::cover!(true, "nothing due");
+    }
+    assert!(cb.sends == 0);
+    core::mem::forget(c);
+}
+
 fn tick_step_handshake___V__(state_kind: u8) {
     let now: u64 = kani::any();
     kani::assume(now < (1u64 << 62));
